@@ -263,6 +263,22 @@ func enumStringIntrinsic(w *World, t *Thread, fr *frame, fn *ssa.Function, args 
 }
 
 func init() {
+	// loading the subnet file is environment: a reload yields a fresh selector (or fails)
+	reg(repoMod+"/pkg/phantoms.GetPhantomSubnetSelector", func(w *World, t *Thread, fr *frame, fn *ssa.Function, args []Value) Value {
+		st := fn.Signature.Results().At(0).Type()
+		if w.decideBool(w.tt.Fresh("subnetfile_unreadable", 0), "subnet file load") {
+			return Tuple{(*Value)(nil), w.mkError("error opening configuration file")}
+		}
+		cell := new(Value)
+		*cell = w.zero(deref(st))
+		mt := deref(st).Underlying().(*types.Struct).Field(0).Type().Underlying().(*types.Map)
+		(*cell).(Struct)[0] = &Map{kt: mt.Key(), vt: mt.Elem(), ents: []mapEnt(nil)}
+		return Tuple{cell, w.nilError()}
+	})
+	reg("os.Setenv", func(w *World, t *Thread, fr *frame, fn *ssa.Function, args []Value) Value {
+		w.ext["env:"+w.concStr(fr, args[0], "env key")] = args[1]
+		return w.nilError()
+	})
 	// encoding/json.Marshal: reflection; the result only feeds log lines here.
 	reg("encoding/json.Marshal", func(w *World, t *Thread, fr *frame, fn *ssa.Function, args []Value) Value {
 		return Tuple{w.constBytes([]byte(`{"json":"opaque"}`)), w.nilError()}
